@@ -229,6 +229,32 @@ def one_case(arg):
                         out["viol"].append(("C13/stored-graph/root-through-replaced-object/values-differ" + ("/core.useReplaceRefs=true-in-config" if explicit_cfg else ""),
                                             {"root": sp, "kind": kind, "diffs": bad[:4]}))
                     out["root_through"] = out.get("root_through", 0) + 1
+        # --- a repository without any reference, HEAD detached, and a linked worktree whose HEAD is detached elsewhere:
+        # nothing is selected, so every way of addressing it gives the same (empty) report
+        if idx % 4 == 3 and len(m.commits) >= 2:
+            nm = G.Model()
+            nm.bare = False
+            nm.head = m.commits[0]
+            nm.noise = [m.commits[-1]]
+            nr = os.path.join(d, "norefs")
+            nrg = G.write_model(nm, nr)
+            nwt = os.path.join(d, "norefs-wt")
+            p = gitc(nr, "worktree", "add", "--detach", "--no-checkout", nwt, m.commits[-1].oid, check=False)
+            outs_n = {}
+            for name, cwd, cmd, env in [("top", nr, [sz] + argv, {}), ("linked-worktree", nwt, [sz] + argv, {}),
+                                        ("GIT_DIR", unrelated, [sz] + argv, {"GIT_DIR": nrg}),
+                                        ("git -C worktree", unrelated, [G.REAL_GIT, "-C", nwt, "sizer"] + argv, {"PATH": bindir + ":/usr/bin:/bin"})]:
+                if name != "top" and "worktree" in name and p.returncode != 0:
+                    continue
+                r = R.run_proc(cmd, cwd, R.base_env(env), timeout=60, tmpdir=d)
+                out["evals"] += 1
+                if r.rc != 0:
+                    out["viol"].append(("C13/addressing/run-failed/no-references/" + name, {"rc": r.rc, "stderr": r.err[-300:].decode("utf-8", "replace")}))
+                else:
+                    outs_n[name] = r.out
+            for name, o in outs_n.items():
+                if o != outs_n.get("top", o):
+                    out["viol"].append(("C13/addressing/report-differs/no-references/" + name, {"first_diff": _first_diff(outs_n["top"], o)}))
         # --- shallow
         if idx % 4 == 0 and len(m.commits) >= 2:
             sh = os.path.join(d, "sh")
